@@ -265,6 +265,24 @@ impl<F: Write + Seek> Allocator<F> {
     /// Adds a new sector to the FAT chain at the end of the file, and updates
     /// the FAT and DIFAT accordingly.
     fn append_fat_sector(&mut self) -> io::Result<()> {
+        let fat_len = self.fat.len();
+        let difat_len = self.difat.len();
+        let num_difat_sectors = self.difat_sector_ids.len();
+        let result = self.try_append_fat_sector();
+        if result.is_err() {
+            // Some of the writes didn't happen, so forget the new sector(s)
+            // again; otherwise a retry would skip the writes that are still
+            // missing (the DIFAT entry and the sector counts in the header),
+            // and everything allocated in the new FAT sector would be lost
+            // when the file is reopened.
+            self.fat.truncate(fat_len);
+            self.difat.truncate(difat_len);
+            self.difat_sector_ids.truncate(num_difat_sectors);
+        }
+        result
+    }
+
+    fn try_append_fat_sector(&mut self) -> io::Result<()> {
         // Add a new FAT sector to the end of the file.
         let new_fat_sector_id = self.fat.len() as u32;
         self.sectors.init_sector(new_fat_sector_id, SectorInit::Fat)?;
